@@ -545,7 +545,7 @@ func registerPaths(r *lib.Run) {
 		name := string(lib.UnHex(a[3]))
 		obs := ""
 		tries := 300
-		if a[4] == "0" { // first run of the generator: any order
+		if strings.HasPrefix(a[4], "?") { // first run of the generator: any order
 			tries = 1
 		}
 		for try := 0; try < tries; try++ { // map iteration order of the options: repeat until it is the recorded one
@@ -606,11 +606,14 @@ func registerPaths(r *lib.Run) {
 // doLate records a case whose arguments are partly read from the emitted frame (sequence numbers,
 // payloads built by third-party packers): run first, then build the case line.
 func doLate(r *lib.Run, kind string, c nicCfg, pre []string, derive func(f []byte) []string) {
-	probe := append(append(c.toks(), pre...), "0", "0", "0", "0", "0", "0")
-	obs := r.Exec(kind, probe)
+	obs := r.Exec(kind, append(c.toks(), pre...))
 	if obs == "none" || obs == "panic" || strings.Contains(obs, ",") {
-		r.Case(kind, append(c.toks(), pre...), obs) // refused (or worse): the arguments as given
-		oracle(r, kind, c, pre, obs)
+		args := append([]string{}, pre...)
+		for i := range args {
+			args[i] = strings.TrimPrefix(args[i], "?") // "?x": a value the first run may replace
+		}
+		r.Case(kind, append(c.toks(), args...), obs) // refused (or worse): the arguments as given
+		oracle(r, kind, c, args, obs)
 		r.Stat("class."+kind+".refused", 1)
 		return
 	}
@@ -696,7 +699,18 @@ func generatePaths(r *lib.Run, g gen, do func(kind string, c nicCfg, args ...str
 		}
 		do("ra", c, hx(dm), ipTok(di), rd, pft, g.seed())
 
+		// ARP sender / target MACs are payload (the Ethernet source is the NIC MAC): mostly valid; MACs that are not
+		// 6 bytes (sender, target or destination) must be refused
 		sm, tm, dst := g.mac(), g.mac(), g.mac()
+		if rng.Chance(30) {
+			sm = g.srcMAC(c)
+		}
+		if rng.Chance(15) {
+			tm = g.srcMAC(c)
+		}
+		if rng.Chance(5) {
+			dst = g.srcMAC(c)
+		}
 		do("arpraw", c, hx(dst), hx(sm), ipTok(g.ip4()), hx(tm), ipTok(g.ip4()), g.seed())
 		do("arpreply", c, hx(dst), hx(sm), ipTok(g.ip4()), hx(tm), ipTok(g.ip4()), g.seed())
 		do("arpreq", c, ipTok(g.ip4()), g.seed())
@@ -718,7 +732,15 @@ func generatePaths(r *lib.Run, g gen, do func(kind string, c nicCfg, args ...str
 		if rng.Chance(60) {
 			name = g.nbName()
 		}
-		doLate(r, "discover", c, []string{hx(g.mac()), ci, xid, hx([]byte(name))}, func(f []byte) []string {
+		chaddr := g.mac()
+		if rng.Chance(25) { // nil / short / long chaddr: refused
+			chaddr = g.srcMAC(c)
+		}
+		order0 := "?55/53"
+		if name != "" {
+			order0 = "?12/55/53"
+		}
+		doLate(r, "discover", c, []string{hx(chaddr), ci, xid, hx([]byte(name)), order0, "0"}, func(f []byte) []string {
 			codes, _ := optionOrder(f[42:])
 			return []string{hx(f[42+28 : 42+34]), ci, hx(f[42+4 : 42+8]), hx([]byte(name)), strings.Join(codes, "/"), "0"}
 		})
@@ -727,10 +749,7 @@ func generatePaths(r *lib.Run, g gen, do func(kind string, c nicCfg, args ...str
 		do("llmnrq", c, hx([]byte(g.dnsName())))
 		do("ssdp", c, g.seed())
 		// NBNS: source either the host itself or another MAC (the function takes it from the caller)
-		src := packet.Addr{MAC: c.hostMAC, IP: c.hostIP}
-		if rng.Chance(30) {
-			src.MAC = g.mac()
-		}
+		src := packet.Addr{MAC: g.srcMAC(c), IP: c.hostIP}
 		dstA := packet.Addr{MAC: packet.EthBroadcast, IP: netip.MustParseAddr("255.255.255.255")}
 		if rng.Bool() {
 			dstA = packet.Addr{MAC: g.mac(), IP: lan(c)}
@@ -742,8 +761,9 @@ func generatePaths(r *lib.Run, g gen, do func(kind string, c nicCfg, args ...str
 		})
 		doLate(r, "nbnsstat", c, []string{"0", seed}, func(f []byte) []string { return []string{strconv.Itoa(be(f[42:44])), seed} })
 		// sleep proxy response over IPv4 and IPv6; the packed DNS message is taken from the frame
-		sp4 := []string{hx(c.hostMAC), ipTok(c.hostIP), hx(g.mac()), ipTok(netip.AddrFrom4([4]byte{224, 0, 0, 251})), "5353"}
-		sp6 := []string{hx(c.hostMAC), ipTok(g.ip6()), hx(g.mac()), ipTok(netip.MustParseAddr("ff02::fb")), "5353"}
+		// the source Addr of the sleep proxy response: IPv4 and IPv6, with every class of source MAC
+		sp4 := []string{hx(g.srcMAC(c)), ipTok(c.hostIP), hx(g.mac()), ipTok(netip.AddrFrom4([4]byte{224, 0, 0, 251})), "5353"}
+		sp6 := []string{hx(g.srcMAC(c)), ipTok(g.ip6()), hx(g.mac()), ipTok(netip.MustParseAddr("ff02::fb")), "5353"}
 		for _, sp := range [][]string{sp4, sp6} {
 			sp := sp
 			id := uint16(rng.U64())
